@@ -142,6 +142,12 @@ def make_case(rnd, *, kind, rkind, signed, flag, n_utxo, num, den, fee, version,
     for i in range(n_utxo):
         sat = amounts[i] if amounts else rnd.choice(FLOAT_HOSTILE + [rnd.randrange(2000, 5 * 10**9)])
         utxos.append({"txid": rnd.randbytes(32), "vout": vouts[i] if vouts else rnd.randrange(0, 6), "sat": sat})
+    # the outputs of one sender cannot add up to more than the 21e14-satoshi money supply (beyond it the node's 8-decimal
+    # JSON total is no longer exactly representable as a double): keep at most one near-maximal amount per set
+    MAXM = 21 * 10 ** 14
+    while sum(u["sat"] for u in utxos) > MAXM:
+        big = max(utxos, key=lambda u: u["sat"])
+        big["sat"] = rnd.randrange(2000, 10 ** 9)
     if same_txid:       # several outputs of ONE funding transaction: same txid, distinct output indices
         for i, u in enumerate(utxos):
             u["txid"], u["vout"] = utxos[0]["txid"], i + (vouts[0] if vouts else 0)
@@ -238,6 +244,11 @@ def gen_cases(ctx, rnd):
                                n_utxo=1 if i % 4 else 2, num=1, den=rnd.choice([1, 2]), fee=1000, version=rnd.choice([1, 2]),
                                lock=rnd.choice([0, 7]), change="p2pkh" if kind == "multisig" else rnd.choice([None, "p2pkh"]), m=mm, n=nn,
                                vouts=None))
+    # 8. sweeps: several segwit inputs into ONE output, so that inputs 1.. have no output of the same index (SINGLE rules)
+    for i, kind in enumerate(seg if not quick else ["p2wpkh", "p2wsh"]):
+        for flag in ([0x03, 0x83] if quick else [0x03, 0x83, 0x02, 0x82, 0x01, 0x81]):
+            cases.append(make_case(rnd, kind=kind, rkind="p2wpkh", signed=True, flag=flag, n_utxo=3, num=1, den=1, fee=1000, version=2,
+                                   lock=0, change=None, m=1, n=2, amounts=[rnd.randrange(10 ** 6, 10 ** 8) for _ in range(3)]))
     # 6. several outputs of one funding transaction (same txid, different vout), all needed
     for i in range(3 if quick else 60):
         kind = ["p2wpkh", "p2pkh-c", "p2wsh"][i % 3]
